@@ -22,8 +22,9 @@ type c15Case struct {
 }
 
 type c15Sink struct {
-	starts []c15Start
-	cur    int
+	starts   []c15Start
+	cur      int
+	failStop bool // StopRecording reports an error (the sink is closed nevertheless)
 }
 type c15Start struct {
 	frame int
@@ -37,7 +38,12 @@ func (s *c15Sink) StartRecording(bg *cptvframe.Frame, thr uint16) error {
 	return nil
 }
 func (s *c15Sink) WriteFrame(f *cptvframe.Frame) error { return nil }
-func (s *c15Sink) StopRecording() error                { return nil }
+func (s *c15Sink) StopRecording() error {
+	if s.failStop {
+		return errInjected
+	}
+	return nil
+}
 
 func allowedThresh(c DCfg, mean float64) map[uint16]bool {
 	out := map[uint16]bool{}
@@ -162,22 +168,41 @@ func runC15(c c15Case) (string, string, int) {
 	if !c15APIEverywhere && c.Cfg.ResX*c.Cfg.ResY > 9 {
 		return "", "", recomputed
 	}
-	// API level: a processor that starts a recording on every motion frame exposes background and threshold
+	// API level: a processor that starts a recording on every motion frame exposes background and threshold.
+	// Second variant (streams with a camera reset only): recordings stay open (min=max=2 s) and closing
+	// them reports a storage error - the reset must re-seed the background all the same.
 	w, _ := window.New("12:00", "12:00", 0, 0)
-	rc := &recorder.RecorderConfig{MinSecs: 0, MaxSecs: 0, PreviewSecs: c.Cfg.Preview, Window: *w}
-	sk := &c15Sink{}
-	mp := motion.NewMotionProcessor(nil, &conf, rc, &config.Location{}, nil, sk, c.Cfg.cam(), nil, nil)
-	for i, f := range c.Frames {
-		if f.Reset {
-			mp.Reset(c.Cfg.cam())
-		}
-		sk.cur = i
-		mp.ProcessFrame(f.frame(c.Cfg, i+1))
+	hasReset := false
+	for _, f := range c.Frames {
+		hasReset = hasReset || f.Reset
 	}
-	for _, s := range sk.starts {
-		want := states[s.frame]
-		if s.thr != want.thr || fmt.Sprint(s.bg) != fmt.Sprint(want.bg) {
-			return "C15:stored-background-or-threshold-not-the-one-in-force", fmt.Sprintf("%+v stream %s: recording triggered at frame %d stored threshold %d / background %v; in force at that frame: %d / %v", c.Cfg, fmtStream(c.Frames), s.frame+1, s.thr, s.bg, want.thr, want.bg), recomputed
+	for variant := 0; variant < 2; variant++ {
+		if variant == 1 && !hasReset {
+			break
+		}
+		rc := &recorder.RecorderConfig{MinSecs: 0, MaxSecs: 0, PreviewSecs: c.Cfg.Preview, Window: *w}
+		sk := &c15Sink{}
+		if variant == 1 {
+			rc.MinSecs, rc.MaxSecs = 2, 2
+			sk.failStop = true
+		}
+		mp := motion.NewMotionProcessor(nil, &conf, rc, &config.Location{}, nil, sk, c.Cfg.cam(), nil, nil)
+		for i, f := range c.Frames {
+			if f.Reset {
+				mp.Reset(c.Cfg.cam())
+			}
+			sk.cur = i
+			mp.ProcessFrame(f.frame(c.Cfg, i+1))
+		}
+		for _, s := range sk.starts {
+			want := states[s.frame]
+			if s.thr != want.thr || fmt.Sprint(s.bg) != fmt.Sprint(want.bg) {
+				sig := "C15:stored-background-or-threshold-not-the-one-in-force"
+				if variant == 1 {
+					sig = "C15:background-not-reseeded-after-reset-when-closing-the-recording-failed"
+				}
+				return sig, fmt.Sprintf("%+v stream %s (variant %d: %s): recording triggered at frame %d stored threshold %d / background %v; a detector fed the same frames and resets has %d / %v", c.Cfg, fmtStream(c.Frames), variant, map[int]string{0: "one-frame recordings", 1: "2 s recordings, StopRecording reports an error"}[variant], s.frame+1, s.thr, s.bg, want.thr, want.bg), recomputed
+			}
 		}
 	}
 	return "", "", recomputed
@@ -216,7 +241,7 @@ func c15Run(r *ev.Run) {
 			{2, 2, 0, []uint16{lo, mid, hi}, 3},
 		}
 	}
-	r.Rule = "real detector with dynamic threshold: every stream of the stated length over per-pixel alphabets {lo, lo+1, mid, hi} (scene mean below, inside, above [temp-thresh-min,max] = [1200,1400]) for interiors of 1, 2 and 4 pixels (edge-pixels 0,1,2), with at most one FFC period of any length and at most one camera reset at any position; (min,max) in {unset,set}^2 plus min==max (threshold pinned inside / at the bottom of the scene range); preview frames 0,1,2. Oracle after every frame (deep layer) and at every sink StartRecording (API level, processor with min=max=0 so every motion frame starts a recording): background <= frame on the interior, border replicates nearest interior pixel, re-seeded after FFC/reset, threshold either unchanged or the bounded mean (+-1 float truncation), stored background/threshold = the ones in force. Non-trivial = stream in which the threshold was recomputed."
+	r.Rule = "real detector with dynamic threshold: every stream of the stated length over per-pixel alphabets {lo, lo+1, mid, hi} (scene mean below, inside, above [temp-thresh-min,max] = [1200,1400]) for interiors of 1, 2 and 4 pixels (edge-pixels 0,1,2), with at most one FFC period of any length and at most one camera reset at any position; (min,max) in {unset,set}^2 plus min==max (threshold pinned inside / at the bottom of the scene range); preview frames 0,1,2. Oracle after every frame (deep layer) and at every sink StartRecording (API level, processor with min=max=0 so every motion frame starts a recording): background <= frame on the interior, border replicates nearest interior pixel, re-seeded after FFC/reset, threshold either unchanged or the bounded mean (+-1 float truncation), stored background/threshold = the ones in force (also when a camera reset arrives during a recording whose StopRecording reports an error). Non-trivial = stream in which the threshold was recomputed."
 	c15APIEverywhere = r.Thorough()
 	r.Bounds["api_level_on"] = map[bool]string{true: "all shapes", false: "shapes up to 3x3 (deep layer on all)"}[c15APIEverywhere]
 	r.Assumptions = []string{"deep layer reads detector.background / tempThresh by name; API layer needs no private access"}
